@@ -205,8 +205,33 @@ def families():
             ("SymplecticEulerSolver", I.SymplecticEulerSolver), ("Richardson(RK4,3)", de.integrators.generate_richardson_integrator(I.RK4Solver, 3))]
 
 
+def event_loop_block(ctx):
+    """calls with events and faults (integrator, event function, callback, interrupt; also inside the nested call of a terminal event)
+    against the Lean model `DV.LoopEv`, and the C12 clauses visible on the time grid: the recorded prefix survives, the status reports
+    the failure, a later call resumes"""
+    import evloopsim
+    scs = evloopsim.run_block(ctx, "C12", 30, 300)
+    for sc in scs:
+        prev = None
+        for op, rec in zip(sc.ops, sc.records):
+            if op[0] in ("int", "evint") and rec.get("exc") is not None and prev is not None:
+                inp = dict(kind="event-loop-fault", method=sc.method.__name__, dense=sc.dense, ops=str(sc.ops)[:600], op=str(op)[:300])
+                n = len(prev["t"])
+                ctx.oracle("fault-keeps-recorded-prefix", rec["t"][:n] == prev["t"], dict(inp, before=prev["t"][-3:], after=rec["t"][max(0, n - 3):n]),
+                           what="a call that failed changed samples recorded before it")
+                ctx.oracle("fault-status", rec["status"] in (3, 4) and not rec["success"] and rec["exc"] in ("FailedIntegration", "KeyboardInterrupt"),
+                           dict(inp, status=rec["status"], exc=rec["exc"], success=rec["success"]), what="failed call: status %r, exception %r, success %r" % (rec["status"], rec["exc"], rec["success"]))
+                same_way = all(x[0] in ("new", "setdt") or (x[0] in ("int", "evint") and x[1] is None) for x in sc.ops[:sc.ops.index(op) + 1])
+                if same_way and len(rec["t"]) > 1:
+                    d = rec["t"][1] - rec["t"][0]
+                    ctx.oracle("fault-leaves-monotone-grid", all((b - a) * d > 0 for a, b in zip(rec["t"], rec["t"][1:])), dict(inp, tail=rec["t"][-4:]),
+                               what="recorded times not monotone after a failed call")
+            prev = rec
+
+
 def run(ctx):
     rng = ctx.rng
+    event_loop_block(ctx)
     for mname, method in families():
         for direction in (1, -1):
             try:
